@@ -98,7 +98,9 @@ impl Src {
         Src { base: p as usize, esize: std::mem::size_of::<T>() }
     }
     fn part<T>(&self, p: *const T, len: usize) -> (i64, i64) {
-        ((p as usize as i64) - (self.base as i64), len as i64)
+        // offsets far outside the source (an unrelated or dangling address) are reported as "elsewhere"
+        let off = (p as usize as i64) - (self.base as i64);
+        (off.clamp(-(1 << 30), 1 << 30), len as i64)
     }
 }
 
@@ -345,39 +347,41 @@ where
 }
 
 /// &[T] / &mut [T] of length l reinterpreted as &GenericArray<T, N>
-fn from_slice<T: VE, N: ArrayLength>(api: &str, n: usize, l: usize) {
-    let mut v: Vec<T> = fillv::<T>(l);
+fn from_slice<T: VE, N: ArrayLength>(api: &str, n: usize, l: usize, shift: usize) {
+    // the slice handed to the API starts `shift` elements into a larger buffer (not at an allocation boundary)
+    let mut whole: Vec<T> = fillv::<T>(l + shift + 2);
+    let v: &mut [T] = &mut whole[shift..shift + l];
     let src = Src::of(v.as_ptr());
-    log_src(&nums(&v), src.esize);
+    log_src(&nums(v), src.esize);
     let esize = src.esize;
     let ok = |g: &GenericArray<T, N>| {
         log_view(api, n, l, 0, 0, "ok", &[src.part(g.as_ptr(), g.len())], -1, esize);
         log_read(1, &nums(g.as_slice()));
     };
     match api {
-        "from_slice" => match catch_unwind(AssertUnwindSafe(|| GenericArray::<T, N>::from_slice(&v))) {
+        "from_slice" => match catch_unwind(AssertUnwindSafe(|| GenericArray::<T, N>::from_slice(&*v))) {
             Ok(g) => ok(g),
             Err(_) => log_view(api, n, l, 0, 0, "panic", &[], -1, esize),
         },
-        "try_from_slice" => match GenericArray::<T, N>::try_from_slice(&v) {
+        "try_from_slice" => match GenericArray::<T, N>::try_from_slice(&*v) {
             Ok(g) => ok(g),
             Err(_) => log_view(api, n, l, 0, 0, "err", &[], -1, esize),
         },
-        "tryfrom_ref" => match <&GenericArray<T, N>>::try_from(&v[..]) {
+        "tryfrom_ref" => match <&GenericArray<T, N>>::try_from(&*v) {
             Ok(g) => ok(g),
             Err(_) => log_view(api, n, l, 0, 0, "err", &[], -1, esize),
         },
         "from_mut_slice" | "try_from_mut_slice" | "tryfrom_mut" => {
             let r: Result<Option<&mut GenericArray<T, N>>, ()> = match api {
                 "from_mut_slice" => {
-                    let p: *mut [T] = &mut v[..];
+                    let p: *mut [T] = v as *mut [T];
                     match catch_unwind(AssertUnwindSafe(|| GenericArray::<T, N>::from_mut_slice(unsafe { &mut *p }))) {
                         Ok(g) => Ok(Some(g)),
                         Err(_) => Err(()),
                     }
                 }
-                "try_from_mut_slice" => Ok(GenericArray::<T, N>::try_from_mut_slice(&mut v).ok()),
-                _ => Ok(<&mut GenericArray<T, N>>::try_from(&mut v[..]).ok()),
+                "try_from_mut_slice" => Ok(GenericArray::<T, N>::try_from_mut_slice(unsafe { &mut *(v as *mut [T]) }).ok()),
+                _ => Ok(<&mut GenericArray<T, N>>::try_from(unsafe { &mut *(v as *mut [T]) }).ok()),
             };
             match r {
                 Ok(Some(g)) => {
@@ -385,7 +389,7 @@ fn from_slice<T: VE, N: ArrayLength>(api: &str, n: usize, l: usize) {
                     for i in probes(g.len()) {
                         poke(1, g.as_mut_slice(), i, 6000 + i as i64);
                     }
-                    log_read(0, &nums(&v));
+                    log_read(0, &nums(&whole[shift..shift + l]));
                 }
                 Ok(None) => log_view(api, n, l, 0, 0, "err", &[], -1, esize),
                 Err(()) => log_view(api, n, l, 0, 0, "panic", &[], -1, esize),
@@ -396,13 +400,14 @@ fn from_slice<T: VE, N: ArrayLength>(api: &str, n: usize, l: usize) {
 }
 
 /// chunks_from_slice(_mut) on a slice of length l; slice_from_chunks(_mut) on m chunks
-fn chunks<T: VE, N: ArrayLength>(api: &str, n: usize, l: usize, m: usize) {
+fn chunks<T: VE, N: ArrayLength>(api: &str, n: usize, l: usize, m: usize, shift: usize) {
     match api {
         "chunks_from_slice" => {
-            let v: Vec<T> = fillv::<T>(l);
+            let whole: Vec<T> = fillv::<T>(l + shift + 2);
+            let v: &[T] = &whole[shift..shift + l];
             let src = Src::of(v.as_ptr());
-            log_src(&nums(&v), src.esize);
-            match catch_unwind(AssertUnwindSafe(|| GenericArray::<T, N>::chunks_from_slice(&v))) {
+            log_src(&nums(v), src.esize);
+            match catch_unwind(AssertUnwindSafe(|| GenericArray::<T, N>::chunks_from_slice(v))) {
                 Ok((c, r)) => {
                     log_view(api, n, l, 0, 0, "ok", &[src.part(c.as_ptr() as *const T, c.len() * n), src.part(r.as_ptr(), r.len())], c.len() as i64, src.esize);
                     log_read(1, &c.iter().flat_map(|x| x.iter().map(|e| e.num())).collect::<Vec<_>>());
@@ -412,10 +417,11 @@ fn chunks<T: VE, N: ArrayLength>(api: &str, n: usize, l: usize, m: usize) {
             }
         }
         "chunks_from_slice_mut" => {
-            let mut v: Vec<T> = fillv::<T>(l);
+            let mut whole: Vec<T> = fillv::<T>(l + shift + 2);
+            let v: &mut [T] = &mut whole[shift..shift + l];
             let src = Src::of(v.as_ptr());
-            log_src(&nums(&v), src.esize);
-            let p: *mut [T] = &mut v[..];
+            log_src(&nums(v), src.esize);
+            let p: *mut [T] = v as *mut [T];
             match catch_unwind(AssertUnwindSafe(|| GenericArray::<T, N>::chunks_from_slice_mut(unsafe { &mut *p }))) {
                 Ok((c, r)) => {
                     log_view(api, n, l, 0, 0, "ok", &[src.part(c.as_ptr() as *const T, c.len() * n), src.part(r.as_ptr(), r.len())], c.len() as i64, src.esize);
@@ -430,7 +436,7 @@ fn chunks<T: VE, N: ArrayLength>(api: &str, n: usize, l: usize, m: usize) {
                     for i in probes(r.len()) {
                         poke(2, r, i, 7500 + i as i64);
                     }
-                    log_read(0, &nums(&v));
+                    log_read(0, &nums(&whole[shift..shift + l]));
                 }
                 Err(_) => log_view(api, n, l, 0, 0, "panic", &[], -1, src.esize),
             }
@@ -561,8 +567,8 @@ fn run_one<T: VE>(d: &J) {
         "index" | "index_mut" | "get" => with_len!(n, N => index_views::<T, N>(api, n, l), bad()),
         "asref_array" | "asmut_array" | "from_array_ref" | "from_array_mut" => with_const!(n, C, N => native_views::<T, N, C>(api), bad()),
         "from_chunks" | "from_chunks_mut" | "into_chunks" | "into_chunks_mut" => with_const!(n, C, N => chunk_casts::<T, N, C>(api, m), bad()),
-        "from_slice" | "try_from_slice" | "tryfrom_ref" | "from_mut_slice" | "try_from_mut_slice" | "tryfrom_mut" => with_len!(n, N => from_slice::<T, N>(api, n, l), bad()),
-        "chunks_from_slice" | "chunks_from_slice_mut" | "slice_from_chunks" | "slice_from_chunks_mut" => with_len!(n, N => chunks::<T, N>(api, n, l, m), bad()),
+        "from_slice" | "try_from_slice" | "tryfrom_ref" | "from_mut_slice" | "try_from_mut_slice" | "tryfrom_mut" => with_len!(n, N => from_slice::<T, N>(api, n, l, k), bad()),
+        "chunks_from_slice" | "chunks_from_slice_mut" | "slice_from_chunks" | "slice_from_chunks_mut" => with_len!(n, N => chunks::<T, N>(api, n, l, m, k), bad()),
         "split_ref" | "split_mut" => with_split!(n, k, N, K => split_ref::<T, N, K>(api, n, k), bad()),
         "flatten_ref" | "flatten_mut" => with_flat!(n, m, N, M => flat_ref::<T, N, M>(api, n, m), bad()),
         "unflatten_ref" | "unflatten_mut" => with_unflat!(n, m, N, M => unflat_ref::<T, N, M>(api, n, m), bad()),
